@@ -479,9 +479,9 @@ class TrimWhitespaces(FullAstVisitor):
                 if not isinstance(arg, mparser.ArrayNode):
                     break
                 # files([...]) -> files(...), unless that would drop a comment
-                # or a line continuation attached to the brackets
+                # attached to the brackets
                 dropped = [arg.lbracket, arg.rbracket, arg, node.args, *node.args.commas]
-                if any(n.whitespaces and n.whitespaces.value.strip() for n in dropped):
+                if any(n.whitespaces and '#' in n.whitespaces.value for n in dropped):
                     break
                 node.args = arg.args
 
